@@ -257,14 +257,28 @@ func (a *seqAn) seq(v ssa.Value, depth int) ([]string, error) {
 			return nil, nil
 		}
 	case *ssa.Slice:
-		if al, ok := x.X.(*ssa.Alloc); ok && x.Low == nil && x.High == nil {
+		if al, ok := x.X.(*ssa.Alloc); ok && x.Low == nil {
 			at, ok := al.Type().(*types.Pointer).Elem().Underlying().(*types.Array)
 			if !ok {
 				break
 			}
+			// a slice literal (`[]T{a, b}`: the whole array) or a make with a constant size
+			// (`make([]T, n)`: new [n]T sliced to n), filled by stores at constant indices
+			if x.High != nil && !isConstInt(x.High, at.Len()) {
+				break
+			}
 			out := make([]string, at.Len())
 			cnt := make([]int, at.Len())
-			for _, ref := range *al.Referrers() {
+			refs := append([]ssa.Instruction{}, *al.Referrers()...)
+			if x.High != nil {
+				// the elements of a made slice are addressed through the slice value
+				for _, r := range *x.Referrers() {
+					if _, isIA := r.(*ssa.IndexAddr); isIA {
+						refs = append(refs, r)
+					}
+				}
+			}
+			for _, ref := range refs {
 				ia, ok := ref.(*ssa.IndexAddr)
 				if !ok {
 					if ref == ssa.Instruction(x) {
